@@ -79,7 +79,8 @@ ArcCmds ==
 ModeCmds ==
     (IF UseRel THEN {Plain("G90"), Plain("G91")} ELSE {}) \cup
     (IF UseInch THEN {Plain("G20"), Plain("G21")} ELSE {}) \cup
-    (IF UseHome THEN {Plain("G28")} ELSE {}) \cup
+    \* homing of all axes or of one (also in the middle of an episode)
+    (IF UseHome THEN {Plain("G28"), Flags("G28", <<"X">>), Flags("G28", <<"Y">>)} ELSE {}) \cup
     (IF UseG92 /\ cs.gh.abs
      THEN {Cmd("G92", [l \in {a} |-> v], "", "") : a \in {"X", "Y", "Z"}, v \in {0, 1}}
      ELSE {})
